@@ -280,6 +280,17 @@ def idiom_double_return(rng):
     return p
 
 
+def idiom_jump_from_zero(rng):
+    """a jump whose SOURCE is command 0, then the return heart: command 0 first registers its own label, is re-entered by a
+    jump back and then, its condition having changed, jumps on to a label registered elsewhere; the return heart must come
+    back to command 0 (seeded change C02-return-point-nonzero: index 0 is a return point like any other).
+    Must be the beginning of the program."""
+    a, b, c = rng.sample(range(2, 13), 3)
+    return [(1, 1, 3, (1, leaf(a), leaf(b))), (0, 1, 1, None), (0, 1, 5, None), (0, 1, 5, None), (0, 1, 3, None), (0, 1, 1, None),
+            (0, 1, 3, None), (0, 1, 3, None), (0, 1, 1, None), (1, 1, 3, leaf(a)), (1, 1, 3, (0, leaf(b), (0, leaf(13), leaf(c)))),
+            (0, 9, 8, None), (1, 2, 1, None)]
+
+
 IDIOMS = [idiom_nan_inside, idiom_zero_product, idiom_double_return, idiom_backjump_stack, idiom_input_loop, idiom_forward_jump, idiom_enc_error, idiom_print, idiom_loop, idiom_read, idiom_fraction, idiom_exit, idiom_multi, idiom_label_return, idiom_stacks]
 
 
